@@ -103,6 +103,14 @@ def check_crate(ctx, config, w, crate, dims, counts):
             for rv in (r_, "&" + r_):
                 if (sv, rv) != (s_, r_):
                     optional.add((op, sv, rv, o_))
+    # borrowed-operand variants of the per-quantity rate operators (C13 checks that they forward)
+    for q in qts:
+        Q = q.path
+        for (op, rk) in (("*", "quantities::rate::Rate<$G0,%s>" % Q), ("/", "quantities::rate::Rate<%s,$G0>" % Q)):
+            for sv in (Q, "&" + Q):
+                for rv in (rk, "&" + rk):
+                    if (sv, rv) != (Q, rk):
+                        optional.add((op, sv, rv, "$G0"))
     if crate.name == "quantities":
         # the dimensionless analogue of the per-quantity rate operators (value x rate-per-value, value / rate) and
         # borrowed-operand variants of `rate * value`: dimensionally the same operations as the forms above
@@ -126,7 +134,7 @@ def check_crate(ctx, config, w, crate, dims, counts):
     for e, imps in actual.items():
         for imp in imps:
             tparams = [g["name"] for g in imp["generics"] if g["kind"] == "type"]
-            ok = not tparams or (e[2].startswith("quantities::rate::Rate<") and len(tparams) == 1) or e[1].lstrip("&").startswith("quantities::rate::Rate<")
+            ok = not tparams or (e[2].lstrip("&").startswith("quantities::rate::Rate<") and len(tparams) == 1) or e[1].lstrip("&").startswith("quantities::rate::Rate<")
             ctx.ob("no-blanket-impl", "%s/%s" % (label, fmt(e)), ok, "operator impl `%s` is generic over %s" % (fmt(e), tparams), imp["span"], nontrivial=False)
     # ---- rule 1: like-with-like ------------------------------------------------
     for (op, s, r, imp) in U.cmp_impls(crate):
